@@ -823,11 +823,13 @@ class Interp:
             # opaque objects: behaviour unknown
             if a.cls is None:
                 if dunder in ("__eq__", "__ne__") and not (isinstance(b, VObj) and b.cls in self.world.classes):
-                    # opaque vs builtin/opaque: uninterpreted result
-                    key = ("opq", dunder, a.oid, repr(b))
+                    # opaque vs builtin/opaque: uninterpreted, symmetric equality (== of plain values is symmetric); != is its negation
+                    other = b.oid if isinstance(b, VObj) else repr(b)
+                    key = ("opq-eq", tuple(sorted([a.oid, other])))
                     if key not in ctx.memo:
-                        ctx.memo[key] = VBool(ctx.fresh("opq_cmp", "Bool"))
-                    return ctx.memo[key]
+                        ctx.memo[key] = ctx.fresh("opq_eq", "Bool")
+                    t = ctx.memo[key]
+                    return VBool(t if dunder == "__eq__" else Not(t))
                 return None  # assume a well-behaved foreign object defers to our class
             return None
         if isinstance(a, NUMERIC) and isinstance(b, NUMERIC):
